@@ -432,6 +432,35 @@ func TestC14RateLimit(t *testing.T) {
 	S.Register(gca.Pub, temp)
 	rapid.Check(t, func(t *rapid.T) {
 		time.Sleep(win + 5*time.Millisecond) // start every case with an empty window
+		if rapid.IntRange(0, 2).Draw(t, "staggered") == 0 {
+			// one early request, limit-1 shortly before it expires, limit+1 shortly after
+			start := time.Now()
+			var calls []rlCall
+			one := func() {
+				b := time.Since(start)
+				code, _, err := getArchive(S)
+				a := time.Since(start)
+				if err == nil && (code == 200 || code == 429) {
+					calls = append(calls, rlCall{before: b, after: a, ok: code == 200})
+				}
+			}
+			one()
+			time.Sleep(win * 70 / 100)
+			for i := 0; i < lim-1; i++ {
+				one()
+			}
+			time.Sleep(win * 35 / 100)
+			for i := 0; i < lim+1; i++ {
+				one()
+			}
+			ev.Eval(len(calls))
+			if v := rlJudge(lim, win, calls); v != "" {
+				t.Fatalf("C14: archive rate limit (%d per %v), staggered requests: %s", lim, win, v)
+			}
+			ev.NonTrivial(fmt.Sprintf("c14|rate|staggered|%d", len(calls)))
+			ev.Label("c14:rate-staggered")
+			return
+		}
 		workers := rapid.IntRange(1, 6).Draw(t, "goroutines")
 		per := rapid.IntRange(1, 12).Draw(t, "requests")
 		pace := rapid.SampledFrom([]time.Duration{0, time.Millisecond, 5 * time.Millisecond, 19 * time.Millisecond, 21 * time.Millisecond, 35 * time.Millisecond}).Draw(t, "pace")
